@@ -295,7 +295,7 @@ func (tree *Tree[T]) URL(buf *errwrap.StringBuilder, pattern string, ps map[stri
 	}
 
 	n := tree.Find(pattern)
-	if n == nil {
+	if n == nil || n.size() == 0 { // 没有处理函数的节点只是树的中间节点，并不是一条路由项。
 		return fmt.Errorf("%s 并不是一条有效的注册路由项", pattern)
 	}
 
